@@ -25,6 +25,10 @@ def run(tier):
     # all delivered (each result is taken well within the BlockTimeout, the whole batch takes longer than it)
     free += [("session", dict(size=3, moo=1, al=0, manykeys=36, perf={"strategy": "block", "blockms": 500, "winout": 2, "slowsink": 30000}), 3 if tier == "quick" else 12, 0),
              ("session", dict(size=3, moo=0, al=0, manykeys=12, perf={"strategy": "expand", "winout": 2, "slowsink": 2000}), 2 if tier == "quick" else 12, 0)]
+    # two grouping columns (keys that agree in the first one are different keys); manual flushes (TriggerWindow) between the rows
+    free += [("session", dict(size=2, moo=1, al=0, keys=2, twocol=True), 30 if tier == "quick" else 200, 40),
+             ("session", dict(size=3, moo=0, al=0, keys=2, mtrig=0.08), 30 if tier == "quick" else 200, 40),
+             ("session", dict(size=2, moo=1, al=0, keys=3, twocol=True, mtrig=0.05), 20 if tier == "quick" else 150, 40)]
     idle = [("session", dict(size=10, moo=2), 6 if tier == "quick" else 50)]      # IDLETIMEOUT: ties and stragglers keep a source alive
     post = lambda res, rng, vh, scen: win.proc_session_stage(res, rng, vh, scen, quick=(tier == "quick"))
     return win.run_family("C10", tier, plan, free, ASSUME, idle_plan=idle, post=post)
